@@ -193,6 +193,9 @@ pub struct WireCase {
 	pub batch: bool,
 	pub ws: bool,
 	pub lowlevel: bool,
+	/// (batches) notifications mixed in between the entries: they are run but add nothing to the reply
+	#[serde(default)]
+	pub notifs: u8,
 }
 
 pub struct Wire;
@@ -226,8 +229,9 @@ impl SubCheck for Wire {
 			any::<bool>(),
 			any::<bool>(),
 			proptest::bool::weighted(0.2),
+			prop_oneof![3 => Just(0u8), 1 => 1u8..4, 1 => 4u8..30],
 		)
-			.prop_map(|(limit, delta, entries, batch, ws, lowlevel)| WireCase { limit, delta, entries, batch, ws, lowlevel })
+			.prop_map(|(limit, delta, entries, batch, ws, lowlevel, notifs)| WireCase { limit, delta, entries, batch, ws, lowlevel, notifs })
 			.boxed()
 	}
 	fn run(&self, case: &WireCase, obs: &mut Obs) {
@@ -322,6 +326,14 @@ impl SubCheck for Wire {
 			}
 		}
 		obs.class(if want.contains("-32008") || want.contains("-32011") { "replaced-by-too-big-error" } else { "sent-unchanged" });
+		let mut requests = requests;
+		if case.batch && case.notifs > 0 {
+			for k in 0..case.notifs as usize {
+				let at = (k * 7 + 3) % (requests.len() + 1);
+				requests.insert(at, J::obj(vec![("jsonrpc", J::str("2.0")), ("method", J::str("echo_sync")), ("params", J::Arr(vec![J::num(k)]))]));
+			}
+			obs.class("batch-with-notifications");
+		}
 		let msg = if case.batch { J::Arr(requests.clone()).compact() } else { requests[0].compact() };
 		obs.sample(json!({"limit": limit, "request": truncate(&msg, 300), "judged_len": judged_len}));
 		let rt = rt();
